@@ -536,7 +536,19 @@ def gen_cases(rng, tier):
 
 
 # witnesses used by the _refuted theorems (kept in step with coq/props/C26.v)
-WITNESSES = []
+WITNESSES = [
+    [[0, 1, 1, 0, -1, 0, 0, 0, 1], [[0, 0, 1], [5, 0, 1]], [0, 2]],  # c26_no_leak_refuted_baseexception_in_gc_reset
+    [[0, 1, -1, 1, 0, 1, 0, 1, 1], [[0, 0, 1]], [0, 2, 2]],  # c26_overflow_refuted_baseexception_from_close
+    [[0, 2, 0, 0, -1, 1, 1, 0, 1], [[0, 0, 1], [0, 0, 1]], [0, 4, 2]],  # c26_no_dead_reuse_refuted_baseexception_from_close
+    [[0, 1, 0, 0, -1, 0, 0, 0, 0], [[0, 0, 1], [3, 0, 0], [1, 0, 1], [0, 0, 1]], []],  # equal stamps: soft
+    [[0, 2, 0, 0, -1, 0, 0, 0, 0], [[0, 0, 1], [0, 0, 0], [1, 1, 0], [7, 0, 0], [0, 0, 1]], []],  # equal stamps: pool
+    [[2, 1, 0, 0, -1, 0, 0, 0, 1], [[0, 0, 1], [3, 0, 1], [1, 0, 1], [0, 0, 1]], []],  # c26_ledger_refuted_staticpool
+    [
+        [0, 1, 1, 0, 3, 1, 1, 0, 1],
+        [[0, 0, 1], [0, 0, 1], [1, 0, 5], [0, 0, 1], [5, 1, 1], [1, 2, 1], [5, 0, 1], [5, 2, 1]],
+        [0, 3, 0, 0, 1, 0, 4, 0, 0, 1],
+    ],  # c26_ex_history
+]
 
 
 def nontrivial(c):
@@ -887,7 +899,7 @@ def oracle(c, obs):
         if n == 0 and cid not in detached:
             if owners == 0:
                 return "ledger: connection %d is open but neither idle in the pool nor held%s" % (cid, tags)
-            if owners > 1:
+            if owners > 1 and kind != KST:  # StaticPool shares its one connection between holders by design
                 return "ledger: connection %d is both idle in the pool and held%s" % (cid, tags)
         if n > 0 and cid in idle:
             return "ledger: connection %d had close() called and is idle in the pool%s" % (cid, tags)
@@ -895,10 +907,15 @@ def oracle(c, obs):
 
 
 def match_finding(c, what):
+    cfg, ops, faults = c["in"]
     if "[BaseException-from-close]" in what:
         return "C26-baseexception-from-close"
     if "[BaseException-in-gc-reset]" in what and what.startswith(("leak:", "overflow:")):
         return "C26-baseexception-in-gc-reset"
-    if "[StaticPool]" in what and what.startswith("ledger:"):
+    if (
+        "[StaticPool]" in what
+        and "is open but neither idle in the pool nor held" in what
+        and (any(o[0] in (O_SOFT, O_POOLINV) for o in ops) or any(f in (3, 4) for f in faults))
+    ):
         return "C26-staticpool-abandons-connection"
     return None
